@@ -71,6 +71,19 @@ out += ["",
         "  target itself: `harness.harvest_constants` walks the loaded modules of the code under test (attributes, containers,",
         "  literals compiled into functions) and hands the constants of the right shape back to the generator (C20 model words,",
         "  C17 decoy buffer names) - a special case for a particular value cannot be written without the value being there.",
+        "* *two edits that are each right* (round p) are caught where their product becomes visible, not where either edit is:",
+        "  17 of 20 such changes fell to the existing workloads because those already vary what a refactoring silently assumes",
+        "  (alignment of a section's start, the second section of a kind in a process, empty descriptions, a header at offset",
+        "  0, lower-case dumps, subtype != version).  The three misses were values at the *end of a range* that no draw had",
+        "  produced - entry id 0x00000000, a header-length byte other than 0x20, a wildcard-only PTE ahead of the specific ones;",
+        "* *faults have shapes* (round q): a write that fails is not a write that is cut short - strace can inject the first,",
+        "  only the kernel produces the second truthfully (`RLIMIT_FSIZE`); an import can fail for reasons outside the module",
+        "  (a failpoint on `sys.meta_path`, restricted to plug-in packages, leaves everything else untouched); a path handed to",
+        "  the tool is a path, not a pattern (directory names with `[ ] ? * { }` next to siblings the pattern would match);",
+        "  buffers have sizes (an exclude file whose entries lie across multiples of 64 KiB); a count can be zero;",
+        "* *order of calls is an input*: settings used before (hexdump layouts), dump formats seen before, argument data that",
+        "  did not fit a format before - each shard now draws the order of its cases instead of enumerating them in a fixed one,",
+        "  and the case with the strongest oracle (default layout, parse-back) is repeated after every other case.",
         "",
         "`tools/handmut.py` additionally applies ~95 hand-written single-edit changes (the *Sensitivity* lists of section 4) and",
         "behaviour-preserving refactors as negative controls (renaming `prettyPrint`/`considerPEL`, inlining `parseHeader`,",
